@@ -1,12 +1,11 @@
-(** * LifecycleProofs: theorems about the lifecycle model [Lifecycle.v] (properties C14, C12-lifecycle)
+(** * LifecycleProofs: the inductive invariant of the lifecycle model [Lifecycle.v] (properties C14, C12-lifecycle)
 
-    Part 1: the inductive invariant [Inv] ([inv_reachable]), [start_while_running_rejected],
-    [one_result_per_start], [result_belongs_to_start], [no_foreign_stop], [infinite_not_before_stop_guarded]
-    with its refuted literal form [infinite_not_before_stop_refuted].
-    Part 2 (LifecycleProofs2.v): [race_free], [no_deadlock] (+ local statement and bounded release),
-    [output_never_muted].
-
-    All theorems quantify over ALL schedules (lists of thread ids, [reachable]) and all call sequences. *)
+    Part 1 (this file): [Inv] = [InvA] (control: semaphores, sendLock, program counters, at most one goroutine
+    owning isRunning, senders) /\ [InvB] (ghost: identities of searches, tokens, timers, results), and
+    [inv_reachable]: Inv holds in every reachable state, for ALL schedules and all call sequences.
+    Part 2 (LifecycleProofs2.v): start_while_running_rejected, one_result_per_start, result_belongs_to_start,
+    no_foreign_stop, infinite_not_before_stop, go_after_bestmove_accepted, results_can_swap (finding), race_free,
+    no_deadlock (+ local statement, bounded release), output_never_muted. *)
 From Coq Require Import List Bool Arith PeanoNat Lia.
 Import ListNotations.
 Set Warnings "-unused-intro-pattern".
@@ -58,7 +57,7 @@ Definition cparam_ok (s : state) : Prop :=
   match cpcv s with CSpStore p | CPhGo p => p = stopPtr s | _ => True end.
 Definition sparam_ok (s : state) (p : spc) : Prop :=
   match p with
-  | STimerGo p | SPollTok p | SNodesStore p | SPoll2Tok p | SWaitTok p | SEndStore p => p = stopPtr s
+  | STimerGo p | SPollTok p | SWaitTok p | SEndStore p => p = stopPtr s
   | _ => True
   end.
 Definition in_ph (p : cpc) : bool := match p with CPhLim | CPhPtr | CPhGo _ => true | _ => false end.
@@ -68,6 +67,16 @@ Definition c_send (p : cpc) : bool :=
 Definition s_send (p : spc) : bool :=
   match p with SInfo1 | SInfo2 | SInfo3 _ | SInfo4 | SRes1 | SRes2 | SRes3 _ | SRes4 => true | _ => false end.
 Definition srch_send (s : state) : bool := existsb (fun th => s_send (spcv th)) (srch s).
+Definition snd_pc (p : spc) : bool :=
+  match p with SRes0 | SRes1 | SRes2 | SRes3 _ | SRes4 => true | _ => false end.
+Definition thr_eqb (a b : thr) : bool :=
+  match a, b with
+  | ThCtl, ThCtl | ThClock, ThClock => true
+  | ThSearch n, ThSearch m | ThTimer n, ThTimer m => n =? m
+  | _, _ => false
+  end.
+Definition holder_is (s : state) (t : thr) : bool :=
+  match outHolder s with Some x => thr_eqb x t | None => false end.
 Definition cbuf_ok (s : state) : Prop :=
   match cpcv s with
   | CSend1 _ _ | CSend4 _ => outBuf s = []
@@ -98,12 +107,21 @@ Record InvA (s : state) : Prop := {
   A_sid : forall th, In th (srch s) -> sid th = stopPtr s /\ limitsVar s = Some (slim th) /\ sparam_ok s (spcv th);
   A_cparam : cparam_ok s;
   A_ph : in_ph (cpcv s) = true -> limitsVar s <> None;
-  A_out : outFree s = negb (c_send (cpcv s)) && negb (srch_send s);
-  A_outx : c_send (cpcv s) = true -> srch_send s = false;
+  A_hfree : outFree s = match outHolder s with None => true | Some _ => false end;
+  A_hctl : c_send (cpcv s) = holder_is s ThCtl;
+  A_hsrch : forall th, In th (srch s) -> s_send (spcv th) = holder_is s (ThSearch (sid th));
+  A_hsnd : forall th, In th (senders s) -> s_send (spcv th) = holder_is s (ThSearch (sid th));
   A_buf0 : outFree s = true -> outBuf s = [];
   A_err : outErr s = false;
   A_cbuf : cbuf_ok s;
   A_sbuf : forall th, In th (srch s) -> sbuf_ok s (spcv th);
+  A_nbuf : forall th, In th (senders s) -> sbuf_ok s (spcv th);
+  A_srun : forall th, In th (srch s) -> snd_pc (spcv th) = false;
+  A_snd : forall th, In th (senders s) ->
+          snd_pc (spcv th) = true /\ sid th <= stopPtr s /\ (srch s <> [] \/ cpcv s = CStGo -> sid th < stopPtr s);
+  A_sndnd : NoDup (map sid (senders s));
+  A_hex : forall n, outHolder s = Some (ThSearch n) -> exists th, (In th (srch s) \/ In th (senders s)) /\ sid th = n;
+  A_hkind : match outHolder s with Some (ThTimer _) | Some ThClock => False | _ => True end;
   A_lim : match cpcv s, cur_call s with
           | (CStTok | CStGo), Some (CStart l) => limitsVar s = Some l
           | _, _ => True
@@ -112,7 +130,8 @@ Record InvA (s : state) : Prop := {
 
 Lemma invA_init : forall a b c cs, InvA (init a b c cs).
 Proof.
-  intros; constructor; unfold cparam_ok, cbuf_ok; simpl; auto; try (intros; contradiction); try discriminate.
+  intros; constructor; unfold cparam_ok, cbuf_ok, holder_is; simpl; auto; try (intros; contradiction); try discriminate.
+  constructor.
 Qed.
 
 Lemma tok_set_length : forall l p r, length (tok_set p r l) = length l.
@@ -154,15 +173,15 @@ Ltac dest_in := repeat match goal with
   | H : _ \/ False |- _ => destruct H as [H|[]]; subst
   end.
 
-Lemma rel_out_ok : forall s, outFree s = false -> rel_out s = set_outFree true s.
+Lemma rel_out_ok : forall s, outFree s = false -> rel_out s = set_outHolder None (set_outFree true s).
 Proof. intros. unfold rel_out. rewrite H. reflexivity. Qed.
 
-Lemma invA_search : forall s n c s', InvA s -> step s (TSearch n c) = Some s' -> InvA s'.
+Definition IPAT := True.
+Lemma invA_search : forall s n c s' th, InvA s -> find_s n (srch s) = Some th -> sstep s th c = Some s' -> InvA s'.
 Proof.
-  intros s n c s' I H. unfold step in H. rewrite (A_pan _ I) in H.
-  destruct (find_s n (srch s)) as [th|] eqn:F; try discriminate.
+  intros s n c s' th I F H.
   destruct (srch_single _ _ _ (A_one _ I) F) as [Es En]. clear F.
-  destruct I as [Ipan Ione Irun Iexcl Iinit Iphase Icall Izone Itt Ittw Itoks Isid Icp Iph Iout Ioutx Ibuf0 Ierr Icbuf Isbuf Ilim].
+  destruct I as [Ipan Ione Irun Iexcl Iinit Iphase Icall Izone Itt Ittw Itoks Isid Icp Iph Ihfree Ihctl Ihsrch Ihsnd Ibuf0 Ierr Icbuf Isbuf Inbuf Isrun Isnd Isndnd Ihex Ihkind Ilim].
   unfold srch_init, srch_send, cur_call in *. rewrite Es in *. simpl in *.
   destruct (Isid th (or_introl eq_refl)) as [Esid [Elim Epar]].
   assert (Hrun : holds_run (cpcv s) = false).
@@ -170,7 +189,10 @@ Proof.
   rewrite Hrun in *. simpl in Irun.
   assert (Hz : zone (cpcv s) (hd_error (calls s)) = false).
   { destruct (zone (cpcv s) (hd_error (calls s))) eqn:E; auto. specialize (Izone eq_refl). discriminate. }
-  clear Iexcl Izone Ione. specialize (Itt th (or_introl eq_refl)). specialize (Isbuf th (or_introl eq_refl)). clear Isid.
+  assert (Hsnd : forall th', In th' (senders s) -> snd_pc (spcv th') = true /\ sid th' <= stopPtr s /\ sid th' < stopPtr s).
+  { intros th' Hin. destruct (Isnd th' Hin) as [X1 [X2 X3]]. repeat split; auto. apply X3. left. discriminate. }
+  clear Iexcl Izone Ione. specialize (Itt th (or_introl eq_refl)). specialize (Isbuf th (or_introl eq_refl)).
+  specialize (Ihsrch th (or_introl eq_refl)). specialize (Isrun th (or_introl eq_refl)). clear Isid.
   unfold sstep, goto_s, upd_s, out_stage1, out_stage2, out_stage3 in H. rewrite Elim, Es, ?Ierr in H.
   destruct (spcv th) eqn:Epc; destruct c; try discriminate;
   repeat match goal with
@@ -182,30 +204,173 @@ Proof.
   all: try (specialize (Iphase eq_refl); rewrite Iphase in Iinit; simpl in Iinit).
   all: try rewrite rel_init_ok by assumption.
   all: try rewrite rel_run_ok by assumption.
-  all: try rewrite rel_out_ok by (destruct (c_send (cpcv s)); simpl in *; auto).
-  all: unfold new_timer, emit, after_init_s.
+  all: try rewrite rel_out_ok by (rewrite Ihfree; unfold holder_is in *; destruct (outHolder s); auto; discriminate).
+  all: unfold new_timer, emit, after_init_s, acq_out.
   all: simpl; rewrite ?Es; simpl; rewrite ?Nat.eqb_refl; simpl.
   all: repeat match goal with |- context [if ?b then _ else _] => destruct b eqn:? end.
   all: simpl; rewrite ?Es; simpl; rewrite ?Nat.eqb_refl; simpl.
-  all: constructor; unfold srch_init, srch_send, cur_call, cparam_ok, cbuf_ok; simpl; rewrite ?Epc, ?Hrun, ?Hz, ?tok_set_length; auto; try congruence.
-  all: try (intros; dest_in; simpl in *; try match goal with E : cpcv _ = CStWait |- _ => rewrite E in * end; simpl in *; auto; try discriminate; try congruence).
+  all: constructor; unfold srch_init, srch_send, cur_call, cparam_ok, cbuf_ok, holder_is in *; simpl; rewrite ?Epc, ?Hrun, ?Hz, ?tok_set_length, ?Nat.eqb_refl; auto; try congruence.
+  all: try (intros; dest_in; simpl in *; try match goal with E : cpcv _ = CStWait |- _ => rewrite E in * end; simpl in *; rewrite ?Nat.eqb_refl; auto; try discriminate; try congruence).
   all: try contradiction.
   all: repeat match goal with H : ?x = ?x -> _ |- _ => specialize (H eq_refl) end.
-  all: try (destruct (c_send (cpcv s)) eqn:?; simpl in *; auto; try discriminate; try congruence; fail).
-  all: rewrite ?Isbuf; simpl; auto.
-  all: try (destruct (cpcv s); simpl in *; auto; try discriminate; try (specialize (Ioutx eq_refl); discriminate); fail).
+  (* the holder exists *)
+  all: try match goal with |- forall n0, _ = Some (ThSearch n0) -> exists _, _ =>
+         intros n0 Hn0; first [ inversion Hn0; subst; eexists; split; [left; left; reflexivity | reflexivity]
+                              | destruct (Ihex n0 Hn0) as [t [[Ht|Ht] E]];
+                                [ destruct Ht as [Ht|[]]; subst; eexists; split; [first [left; left; reflexivity | right; left; reflexivity] | reflexivity]
+                                | exists t; split; [first [right; right; exact Ht | right; exact Ht] | exact E] ] ] end.
+  (* senders are untouched and have smaller ids *)
+  all: try match goal with Hin : In ?t (senders _) |- snd_pc _ = true /\ _ =>
+         destruct (Hsnd t Hin) as [? [? ?]]; repeat split; auto; fail end.
+  all: try (match goal with H : context [outHolder ?x] |- _ => destruct (outHolder x) as [[]|] eqn:Eh end;
+            simpl in *; try discriminate; auto; try congruence;
+            try match goal with Hin : In ?t (senders _) |- _ =>
+              destruct (Hsnd t Hin) as [? [? ?]]; specialize (Ihsnd t Hin); simpl in Ihsnd;
+              repeat match goal with H : (_ =? _) = true |- _ => apply Nat.eqb_eq in H end;
+              repeat match goal with |- context [?a =? ?b] => destruct (Nat.eqb_spec a b) end;
+              try lia; try congruence end; fail).
+  (* th holds sendLock *)
+  all: try (assert (Hh : outHolder s = Some (ThSearch (sid th)))
+              by (destruct (outHolder s) as [[]|]; simpl in *; try discriminate; symmetry in Ihsrch; apply Nat.eqb_eq in Ihsrch; congruence);
+            assert (Hc : c_send (cpcv s) = false) by (rewrite Ihctl, Hh; reflexivity);
+            assert (Hn : forall t, In t (senders s) -> s_send (spcv t) = false)
+              by (intros t Hin; rewrite (Ihsnd t Hin), Hh; simpl; destruct (Hsnd t Hin) as [? [? ?]];
+                  destruct (Nat.eqb_spec (sid th) (sid t)); auto; lia)).
+  all: try (destruct (cpcv s); simpl in *; auto; discriminate).
+  all: try match goal with Hin : In ?t (senders _) |- sbuf_ok _ (spcv ?t) =>
+         specialize (Hn t Hin); destruct (Hsnd t Hin) as [? _]; destruct (spcv t); simpl in *; auto; discriminate end.
+  all: try (rewrite ?Isbuf; simpl; auto; fail).
   all: try (destruct Isbuf as [? Hl]; subst; rewrite Hl in *; simpl in *; discriminate).
+  all: try (apply Hn; auto; fail).
+  (* SRelRun: the goroutine moves to the senders *)
+  all: try match goal with Hin : In ?t (senders _) |- sbuf_ok _ (spcv ?t) => apply (Inbuf t Hin) end.
+  all: try match goal with Hin : In ?t (senders _) |- snd_pc _ = true /\ _ =>
+         destruct (Hsnd t Hin) as [? [? ?]]; repeat split; auto end.
+  all: try (constructor; auto; intro Hin; apply in_map_iff in Hin; destruct Hin as [t [E Hin]];
+            destruct (Hsnd t Hin) as [? [? ?]]; lia).
+  all: try match goal with H : _ = ?t \/ In ?t (senders _) |- _ => destruct H as [H|H]; [subst; simpl | ] end.
+  all: try exact Ihsrch.
+  all: try (apply Ihsnd; assumption).
+  all: try exact I.
+  all: try (apply Inbuf; assumption).
+  all: try (destruct (Hsnd _ H) as [? [? ?]]; repeat split; auto; fail).
+  all: try (split; [reflexivity | split; [lia | intros [X|X]; [congruence | rewrite X in Hrun; discriminate]]]; fail).
+  all: try match goal with
+       | H : outHolder _ = Some (ThSearch ?n) |- exists _, _ =>
+           destruct (Ihex n H) as [t [[[Ht|[]]|Ht] E]];
+           [ subst; eexists; split; [first [left; left; reflexivity | right; left; reflexivity] | reflexivity]
+           | exists t; split; [first [right; right; exact Ht | right; exact Ht] | exact E] ]
+       | H : Some _ = Some (ThSearch ?n) |- exists _, _ =>
+           inversion H; subst; eexists; split; [left; left; reflexivity | reflexivity]
+       end.
+  all: try discriminate.
+Qed.
+
+Lemma find_s_in : forall n l th, find_s n l = Some th -> In th l /\ sid th = n.
+Proof. unfold find_s. intros n l th H. apply find_some in H. destruct H as [H1 H2]. apply Nat.eqb_eq in H2. auto. Qed.
+Lemma in_put_s : forall th' l x, In x (put_s th' l) -> x = th' \/ (In x l /\ sid x <> sid th').
+Proof.
+  unfold put_s. intros th' l x H. apply in_map_iff in H. destruct H as [y [E Hy]].
+  destruct (Nat.eqb_spec (sid y) (sid th')); subst; auto.
+Qed.
+Lemma in_del_s : forall n l x, In x (del_s n l) -> In x l /\ sid x <> n.
+Proof.
+  unfold del_s. intros n l x H. apply filter_In in H. destruct H as [H1 H2].
+  split; auto. destruct (Nat.eqb_spec (sid x) n); auto. discriminate.
+Qed.
+Lemma map_sid_put_s : forall th' l, map sid (put_s th' l) = map sid l.
+Proof.
+  unfold put_s. intros. rewrite map_map. apply map_ext_in. intros a Ha.
+  destruct (Nat.eqb_spec (sid a) (sid th')); auto.
+Qed.
+Lemma NoDup_del_s : forall n l, NoDup (map sid l) -> NoDup (map sid (del_s n l)).
+Proof.
+  unfold del_s. induction l; simpl; intros; auto. inversion H; subst.
+  destruct (negb (sid a =? n)); simpl; auto. constructor; auto.
+  intro X. apply H2. apply in_map_iff in X. destruct X as [y [E Hy]]. apply filter_In in Hy.
+  apply in_map_iff. exists y. tauto.
+Qed.
+
+Lemma put_s_in : forall th' l t, In t l -> exists t', In t' (put_s th' l) /\ sid t' = sid t.
+Proof.
+  intros th' l t Ht. unfold put_s. destruct (Nat.eqb_spec (sid t) (sid th')) as [E|E].
+  - exists th'. split; auto. apply in_map_iff. exists t. split; auto. rewrite E, Nat.eqb_refl. reflexivity.
+  - exists t. split; auto. apply in_map_iff. exists t. split; auto. apply Nat.eqb_neq in E. rewrite E. reflexivity.
+Qed.
+
+Lemma invA_sender : forall s n s' th, InvA s -> find_s n (senders s) = Some th -> nstep s th = Some s' -> InvA s'.
+Proof.
+  intros s n s' th I F H. destruct (find_s_in _ _ _ F) as [Hin En]. clear F.
+  destruct I as [Ipan Ione Irun Iexcl Iinit Iphase Icall Izone Itt Ittw Itoks Isid Icp Iph Ihfree Ihctl Ihsrch Ihsnd Ibuf0 Ierr Icbuf Isbuf Inbuf Isrun Isnd Isndnd Ihex Ihkind Ilim].
+  pose proof (Ihsnd th Hin) as Hth. pose proof (Inbuf th Hin) as Hbuf. destruct (Isnd th Hin) as [Hpc [Hle Hlt]].
+  assert (Hsr : forall t, In t (srch s) -> sid t <> sid th).
+  { intros t Ht. destruct (Isid t Ht) as [E _]. assert (sid th < stopPtr s). { apply Hlt. left. intro X. rewrite X in Ht. contradiction. } lia. }
+  assert (Hnd : forall t, In t (senders s) -> sid t = sid th -> t = th).
+  { clear - Isndnd Hin. induction (senders s) as [|a l IH]; simpl in *; try contradiction. inversion Isndnd; subst.
+    intros t [E|Ht] Es; destruct Hin as [E'|Hin]; subst; auto.
+    - exfalso. apply H1. apply in_map_iff. exists th. auto.
+    - exfalso. apply H1. apply in_map_iff. exists t. auto. }
+  unfold nstep, upd_n, out_stage1, out_stage2, out_stage3 in H. rewrite ?Ierr in H.
+  unfold holder_is, cbuf_ok, cparam_ok, srch_init, srch_send in *.
+  destruct (spcv th) eqn:Epc; try discriminate; simpl in Hpc, Hth, Hbuf;
+  repeat match goal with
+  | H : (if ?b then _ else _) = Some _ |- _ => destruct b eqn:?; try discriminate
+  end; try inv_some.
+  all: try rewrite rel_out_ok by (rewrite Ihfree; destruct (outHolder s); auto; discriminate).
+  all: unfold emit, acq_out.
+  all: repeat match goal with |- context [if ?b then _ else _] => destruct b eqn:? end.
+  all: constructor; unfold holder_is, cbuf_ok, cparam_ok, srch_init, srch_send, cur_call in *; simpl; rewrite ?map_sid_put_s; auto; try (apply NoDup_del_s; auto).
+  all: try (assert (Hh : outHolder s = Some (ThSearch (sid th)))
+              by (destruct (outHolder s) as [[]|]; simpl in *; try discriminate; symmetry in Hth; apply Nat.eqb_eq in Hth; congruence)).
+  all: try (assert (Hnone : outHolder s = None) by (destruct (outHolder s); auto; rewrite Ihfree in *; discriminate)).
+  all: assert (Hc : c_send (cpcv s) = false) by (rewrite Ihctl; first [rewrite Hh | rewrite Hnone]; reflexivity).
+  all: assert (Hs0 : forall t, In t (srch s) -> s_send (spcv t) = false)
+         by (intros t Ht; rewrite (Ihsrch t Ht); first [rewrite Hh | rewrite Hnone]; simpl; auto;
+             specialize (Hsr t Ht); destruct (Nat.eqb_spec (sid th) (sid t)); auto; congruence).
+  all: assert (Hn0 : forall t, In t (senders s) -> sid t <> sid th -> s_send (spcv t) = false /\ spcv t = SRes0)
+         by (intros t Ht Hne; assert (X : s_send (spcv t) = false)
+               by (rewrite (Ihsnd t Ht); first [rewrite Hh | rewrite Hnone]; simpl; auto;
+                   destruct (Nat.eqb_spec (sid th) (sid t)); auto; congruence);
+             split; auto; destruct (Isnd t Ht) as [Y _]; destruct (spcv t); simpl in *; auto; discriminate).
+  all: try exact Hc.
+  all: try (intros X; rewrite Ihfree, Hh in X; discriminate).
+  all: try (destruct (cpcv s); simpl in *; auto; discriminate).
+  all: try (intros t Ht; rewrite (Hs0 t Ht); specialize (Hsr t Ht); try destruct (Nat.eqb_spec (sid th) (sid t)); auto; congruence).
+  all: try (intros t Ht; specialize (Hs0 t Ht); destruct (spcv t); simpl in *; auto; discriminate).
+  all: try (intros t Ht; first [apply in_put_s in Ht; destruct Ht as [E|[Ht Hne]] | apply in_del_s in Ht; destruct Ht as [Ht Hne]];
+            [ subst; simpl; rewrite ?Nat.eqb_refl, ?Hh; simpl; rewrite ?Nat.eqb_refl; rewrite ?Hbuf; simpl; auto;
+              try (repeat split; auto; fail)
+            | destruct (Hn0 t Ht Hne) as [X Y]; try rewrite X; try rewrite Y; simpl; auto;
+              try (destruct (Nat.eqb_spec (sid th) (sid t)); auto; congruence);
+              try (apply Isnd; auto; fail) ]; fail).
+  all: try (intros t Ht; apply in_del_s in Ht; destruct Ht as [Ht Hne];
+            destruct (Hn0 t Ht Hne) as [X Y]; try rewrite X; try rewrite Y; simpl; auto; try (apply Isnd; auto); fail).
+  all: try (destruct Hbuf as [? Hl]; subst; rewrite Hl in *; simpl in *; discriminate).
+  all: try (intros t Ht; first [apply in_put_s in Ht; destruct Ht as [E|[Ht Hne]] | apply in_del_s in Ht; destruct Ht as [Ht Hne]];
+            [ subst; simpl; first [ rewrite Hh; simpl; rewrite Nat.eqb_refl; reflexivity | repeat split; auto; fail | idtac ]
+            | destruct (Hn0 t Ht Hne) as [X Y];
+              first [ rewrite X, Hh; simpl; destruct (Nat.eqb_spec (sid th) (sid t)); auto; congruence
+                    | apply Isnd; auto; fail | rewrite Y; simpl; auto; fail | idtac ] ]).
+  all: try (intros t Ht; apply in_del_s in Ht; destruct Ht as [Ht Hne]; apply Isnd; auto; fail).
+  all: try (intros n0 Hn0; discriminate).
+  all: intros n0 Hn0';
+       first [ inversion Hn0'; subst; destruct (put_s_in (set_spc SRes1 th) (senders s) th Hin) as [t' [Ht' E']];
+               exists t'; split; [right; exact Ht' | exact E']
+             | destruct (Ihex n0 Hn0') as [t [[Ht|Ht] E]];
+               [ exists t; split; [left; exact Ht | exact E]
+               | match goal with |- context [put_s ?x _] => destruct (put_s_in x (senders s) t Ht) as [t' [Ht' E']] end;
+                 exists t'; split; [right; exact Ht' | congruence] ] ].
 Qed.
 
 Lemma invA_ctl : forall s s', InvA s -> step s TCtl = Some s' -> InvA s'.
 Proof.
   intros s s' I H. unfold step in H. rewrite (A_pan _ I) in H.
-  destruct I as [Ipan Ione Irun Iexcl Iinit Iphase Icall Izone Itt Ittw Itoks Isid Icp Iph Iout Ioutx Ibuf0 Ierr Icbuf Isbuf Ilim].
-  unfold cstep, cur_call, srch_init, srch_send, cparam_ok, cbuf_ok in *.
+  destruct I as [Ipan Ione Irun Iexcl Iinit Iphase Icall Izone Itt Ittw Itoks Isid Icp Iph Ihfree Ihctl Ihsrch Ihsnd Ibuf0 Ierr Icbuf Isbuf Inbuf Isrun Isnd Isndnd Ihex Ihkind Ilim].
+  unfold cstep, cur_call, srch_init, srch_send, cparam_ok, cbuf_ok, holder_is in *.
   unfold out_stage1, out_stage2, out_stage3 in H. rewrite ?Ierr in H.
   destruct (calls s) as [|c cs] eqn:Ec; simpl in *; try discriminate.
   destruct (srch s) as [|th [|th2 l]] eqn:Es; simpl in *; try lia.
-  - (* no search goroutine *)
+  - (* no search goroutine owns isRunning *)
     destruct (cpcv s) eqn:Epc; simpl in *; destruct c; try discriminate;
     repeat match goal with
     | H : (if ?b then _ else _) = Some _ |- _ => destruct b eqn:?; try discriminate
@@ -214,25 +379,46 @@ Proof.
     all: simpl in *.
     all: try rewrite rel_init_ok by assumption.
     all: try rewrite rel_run_ok by assumption.
-    all: try rewrite rel_out_ok by assumption.
-    all: unfold new_timer, emit_opt, emit, after_init_c.
+    all: try rewrite rel_out_ok by (rewrite Ihfree; destruct (outHolder s) as [[]|]; simpl in *; auto; discriminate).
+    all: unfold new_timer, emit_opt, emit, after_init_c, acq_out.
     all: repeat match goal with |- context [if ?b then _ else _] => destruct b eqn:? end.
     all: repeat match goal with |- context [match ?b with Some _ => _ | None => _ end] => destruct b eqn:? end.
     all: repeat match goal with |- context [match ?b with LReady => _ | _ => _ end] => destruct b eqn:? end.
     all: simpl; rewrite ?Es; simpl.
-    all: constructor; unfold srch_init, srch_send, cur_call, cparam_ok, cbuf_ok; simpl; rewrite ?Es, ?Ec, ?Epc, ?app_length, ?tok_set_length; simpl; auto; try congruence; try lia.
+    all: constructor; unfold srch_init, srch_send, cur_call, cparam_ok, cbuf_ok, holder_is; simpl; rewrite ?Es, ?Ec, ?Epc, ?app_length, ?tok_set_length; simpl; auto; try congruence; try lia.
     all: try (intros; dest_in; simpl in *; auto; try discriminate; try congruence; try contradiction).
     all: try (exfalso; apply Iph; auto; fail).
     all: try (rewrite ?Icbuf; simpl; auto; fail).
     all: try (destruct Icbuf as [? Hl]; subst; rewrite ?Hl in *; simpl in *; auto; discriminate).
-  - (* one search goroutine *)
+    all: try match goal with Hin : In ?t (senders _) |- snd_pc _ = true /\ _ =>
+           destruct (Isnd t Hin) as [X1 [X2 X3]]; repeat split; auto; try lia;
+           intros [Y|Y]; try congruence; try discriminate; try (specialize (X3 (or_intror eq_refl)); lia); try lia end.
+    (* facts about the lock holder *)
+    all: try (assert (Hh : outHolder s = Some ThCtl)
+                by (destruct (outHolder s) as [[]|]; simpl in *; try discriminate; reflexivity)).
+    all: try (assert (Hnone : outHolder s = None) by (destruct (outHolder s); auto; rewrite Ihfree in *; discriminate)).
+    all: try (assert (Hn0 : forall t, In t (senders s) -> s_send (spcv t) = false /\ spcv t = SRes0)
+                by (intros t Ht; assert (X : s_send (spcv t) = false)
+                      by (rewrite (Ihsnd t Ht); first [rewrite Hh | rewrite Hnone]; reflexivity);
+                    split; auto; destruct (Isnd t Ht) as [Y _]; destruct (spcv t); simpl in *; auto; discriminate)).
+    all: try match goal with Hin : In ?t (senders _) |- _ => destruct (Hn0 t Hin) as [X Y]; try rewrite X; try rewrite Y; simpl; auto; fail end.
+    all: try (rewrite Ihfree, Hh in *; discriminate).
+    all: try match goal with H : outHolder _ = Some (ThSearch ?n) |- exists _, _ =>
+           destruct (Ihex n H) as [t [[[]|Ht] E]]; exists t; split; [right; exact Ht | exact E] end.
+    all: try (destruct (outHolder s) as [[| n0 | |]|] eqn:Eh; simpl in *; auto;
+              destruct (Ihex n0 eq_refl) as [t [[[]|Ht] E]]; destruct (Isnd t Ht) as [_ [_ X3]];
+              specialize (X3 (or_intror eq_refl)); destruct (Nat.eqb_spec n0 (stopPtr s)); auto; lia).
+  - (* one search goroutine owns isRunning *)
     clear Ione.
     destruct (Isid th (or_introl eq_refl)) as [Esid [Elim Epar]].
-    specialize (Itt th (or_introl eq_refl)). specialize (Isbuf th (or_introl eq_refl)). clear Isid.
+    specialize (Itt th (or_introl eq_refl)). specialize (Isbuf th (or_introl eq_refl)).
+    specialize (Ihsrch th (or_introl eq_refl)). specialize (Isrun th (or_introl eq_refl)). clear Isid.
     assert (Hrun : holds_run (cpcv s) = false).
     { destruct (holds_run (cpcv s)) eqn:E; auto. specialize (Iexcl eq_refl). discriminate. }
     assert (Hz : zone (cpcv s) (Some c) = false).
     { destruct (zone (cpcv s) (Some c)) eqn:E; auto. specialize (Izone eq_refl). discriminate. }
+    assert (Hsnd : forall th', In th' (senders s) -> snd_pc (spcv th') = true /\ sid th' <= stopPtr s /\ sid th' < stopPtr s).
+    { intros th' Hin. destruct (Isnd th' Hin) as [X1 [X2 X3]]. repeat split; auto. apply X3. left. discriminate. }
     clear Iexcl Izone. rewrite Hrun in Irun. simpl in Irun. rewrite Irun, Elim in H.
     destruct (in_init (spcv th)) eqn:Ein; simpl in *; [specialize (Iphase eq_refl) | clear Iphase].
     all: destruct (s_send (spcv th)) eqn:Esd; simpl in *.
@@ -242,25 +428,40 @@ Proof.
     end; try inv_some; try discriminate.
     all: simpl in *.
     all: try rewrite rel_init_ok by assumption.
-    all: try rewrite rel_out_ok by assumption.
-    all: unfold new_timer, emit_opt, emit, after_init_c.
+    all: try rewrite rel_out_ok by (rewrite Ihfree; destruct (outHolder s) as [[]|]; simpl in *; auto; discriminate).
+    all: unfold new_timer, emit_opt, emit, after_init_c, acq_out.
     all: repeat match goal with |- context [if ?b then _ else _] => destruct b eqn:? end.
     all: repeat match goal with |- context [match ?b with Some _ => _ | None => _ end] => destruct b eqn:? end.
     all: repeat match goal with |- context [match ?b with LReady => _ | _ => _ end] => destruct b eqn:? end.
     all: simpl; rewrite ?Es; simpl.
-    all: constructor; unfold srch_init, srch_send, cur_call, cparam_ok, cbuf_ok; simpl; rewrite ?Es, ?Ec, ?Epc, ?app_length, ?tok_set_length; simpl; rewrite ?Ein, ?Esd; simpl; auto; try congruence; try lia.
+    all: constructor; unfold srch_init, srch_send, cur_call, cparam_ok, cbuf_ok, holder_is; simpl; rewrite ?Es, ?Ec, ?Epc, ?app_length, ?tok_set_length; simpl; rewrite ?Ein, ?Esd; simpl; auto; try congruence; try lia.
     all: try (intros; dest_in; simpl in *; auto; try discriminate; try congruence; try contradiction).
     all: try match goal with I : ?a = false -> true = true -> false = true, H : ?a = false |- _ => specialize (I H eq_refl); discriminate end.
     all: try (rewrite ?Icbuf; simpl; auto; fail).
     all: try (destruct Icbuf as [? Hl]; subst; rewrite ?Hl in *; simpl in *; auto; discriminate).
     all: try (match goal with |- sbuf_ok _ (spcv ?t) => destruct (spcv t); simpl in *; auto; discriminate end).
+    all: try match goal with Hin : In ?t (senders _) |- snd_pc _ = true /\ _ =>
+           destruct (Hsnd t Hin) as [X1 [X2 X3]]; repeat split; auto end.
+    all: try (assert (Hh : outHolder s = Some ThCtl)
+                by (destruct (outHolder s) as [[]|]; simpl in *; try discriminate; reflexivity)).
+    all: try (assert (Hnone : outHolder s = None) by (destruct (outHolder s); auto; rewrite Ihfree in *; discriminate)).
+    all: try (assert (Hn0 : forall t, In t (senders s) -> s_send (spcv t) = false /\ spcv t = SRes0)
+                by (intros t Ht; assert (X : s_send (spcv t) = false)
+                      by (rewrite (Ihsnd t Ht); first [rewrite Hh | rewrite Hnone]; reflexivity);
+                    split; auto; destruct (Isnd t Ht) as [Y _]; destruct (spcv t); simpl in *; auto; discriminate)).
+    all: try match goal with Hin : In ?t (senders _) |- _ => destruct (Hn0 t Hin) as [X Y]; try rewrite X; try rewrite Y; simpl; auto; fail end.
+    all: try (rewrite Ihfree, Hh in *; discriminate).
 Qed.
 
 Lemma invA_step : forall s t s', InvA s -> step s t = Some s' -> InvA s'.
 Proof.
   intros s t s' I H. destruct t.
   - eapply invA_ctl; eauto.
-  - eapply invA_search; eauto.
+  - unfold step in H. rewrite (A_pan _ I) in H.
+    destruct (find_s n (srch s)) as [th|] eqn:F.
+    + eapply invA_search; eauto.
+    + destruct (find_s n (senders s)) as [th|] eqn:F2; try discriminate. destruct c; try discriminate.
+      eapply invA_sender; eauto.
   - eapply invA_timer; eauto.
   - unfold step in H. rewrite (A_pan _ I) in H. inv_some. apply invA_tick; auto.
 Qed.
@@ -294,7 +495,7 @@ Definition allcalls (s : state) : list call := rev (done s) ++ calls s.
 
 Definition creator_ok (st : starts_t) (ci : nat) (ac : list call) (n : nat) (cr : creator) : Prop :=
   match cr with
-  | ByRun m => m = n /\ exists c l, In (n, c, l) st /\ lTimeControl l && negb (lPonder l) = true
+  | ByRun m => m = n /\ exists c l, In (n, c, l) st /\ lTimeControl l && negb (lPonder l) && negb (lInfinite l) = true
   | ByPonderHit c => c <= ci /\ nth_error ac c = Some CPonderHit /\ (forall c' l, In (n, c', l) st -> c' < c)
                      /\ exists c' l, In (n, c', l) st /\ lPonder l = true
   end.
@@ -310,18 +511,17 @@ Definition reason_ok (st : starts_t) (ci : nat) (ac : list call) (n : nat) (r : 
 Definition res_ok (st : starts_t) (ci : nat) (ac : list call) (n : nat) (r : reason) : Prop :=
   match r with
   | RSelf => exists c l, In (n, c, l) st /\ lPonder l || lInfinite l = false
+  | RNodes => exists c l, In (n, c, l) st /\ lNodes l = true /\ lPonder l || lInfinite l = false
   | REnd => False
   | _ => reason_ok st ci ac n r
   end.
 
 Definition sent (p : spc) : bool :=
-  match p with SRes2 | SRes3 _ | SRes4 | SRelRun => true | _ => false end.
-Definition pending (s : state) : bool :=
-  match srch s with
-  | th :: _ => negb (sent (spcv th))
-  | [] => match cpcv s with CStGo => true | _ => false end
-  end.
-Definition ndone (s : state) : nat := stopPtr s - (if pending s then 1 else 0).
+  match p with SRes2 | SRes3 _ | SRes4 => true | _ => false end.
+(* accepted starts whose result has not been handed over yet *)
+Definition unsent_ids (s : state) : list nat :=
+  map sid (srch s) ++ map sid (filter (fun th => negb (sent (spcv th))) (senders s))
+  ++ match cpcv s with CStGo => [stopPtr s] | _ => [] end.
 Definition before_end (p : spc) : bool :=
   match p with SRes0 | SRes1 | SRes2 | SRes3 _ | SRes4 | SRelRun => false | _ => true end.
 Definition after_wait (p : spc) : bool :=
@@ -330,8 +530,7 @@ Definition after_wait (p : spc) : bool :=
 
 Definition spc_lim_ok (p : spc) (l : limits) : Prop :=
   match p with
-  | STimerPtr | STimerGo _ => lTimeControl l && negb (lPonder l) = true
-  | SNodesPtr | SNodesStore _ => lNodes l = true
+  | STimerPtr | STimerGo _ => lTimeControl l && negb (lPonder l) && negb (lInfinite l) = true
   | _ => True
   end.
 
@@ -346,17 +545,18 @@ Record InvB (s : state) : Prop := {
           | _ => True
           end;
   B_limvar : cpcv s <> CStTok -> forall l, limitsVar s = Some l -> exists c, In (stopPtr s, c, l) (starts s);
-  B_srch : forall th, In th (srch s) -> exists c, In (sid th, c, slim th) (starts s);
-  B_tok : forall n r, tok_get n (toks s) = Some r -> reason_ok (starts s) (cidx s) (allcalls s) n r;
+  B_srch : forall th, In th (srch s) \/ In th (senders s) -> exists c, In (sid th, c, slim th) (starts s);
+  B_tok : forall n r, tok_get n (toks s) = Some r -> reason_ok (starts s) (cidx s) (allcalls s) n r /\ r <> RNodes;
   B_timers : forall tm, In tm (timers s) ->
              ttok tm <= stopPtr s /\ creator_ok (starts s) (cidx s) (allcalls s) (ttok tm) (tcreator tm);
   B_noend : forall th, In th (srch s) -> before_end (spcv th) = true -> tok_get (stopPtr s) (toks s) <> Some REnd;
-  B_sreason : forall th r, In th (srch s) -> sreason th = Some r ->
+  B_sreason : forall th r, In th (srch s) \/ In th (senders s) -> sreason th = Some r ->
               reason_ok (starts s) (cidx s) (allcalls s) (sid th) r /\ r <> REnd;
-  B_waited : forall th, In th (srch s) -> after_wait (spcv th) = true ->
-             lPonder (slim th) || lInfinite (slim th) = true -> sreason th <> None;
+  B_waited : forall th, In th (srch s) \/ In th (senders s) -> after_wait (spcv th) = true ->
+             lPonder (slim th) || lInfinite (slim th) = true -> sreason th <> None /\ sreason th <> Some RNodes;
   B_res : forall n r, In (n, r) (results s) -> res_ok (starts s) (cidx s) (allcalls s) n r /\ n <= stopPtr s;
-  B_resids : map fst (results s) = rev (seq 1 (ndone s));
+  B_resnd : NoDup (map fst (results s));
+  B_resin : forall n, In n (map fst (results s)) <-> (1 <= n <= stopPtr s /\ ~ In n (unsent_ids s));
   B_pcs : forall th, In th (srch s) -> spc_lim_ok (spcv th) (slim th);
   B_pos : srch s <> [] \/ cpcv s = CStGo -> 1 <= stopPtr s;
   B_fresh : cpcv s = CStGo -> tok_get (stopPtr s) (toks s) = None /\ forall tm, In tm (timers s) -> ttok tm < stopPtr s;
@@ -369,8 +569,11 @@ Record InvB (s : state) : Prop := {
 Lemma invB_init : forall a b c cs, InvB (init a b c cs).
 Proof.
   intros; constructor; simpl; auto; try (intros; contradiction); try discriminate.
-  - intros [|[|n]] r; simpl; discriminate.
-  - intros [H|H]; [contradiction | discriminate].
+  all: try (intros [|[|n]] r; simpl; discriminate).
+  all: try (intros [H|H]; [contradiction | discriminate]).
+  all: try (intros; tauto).
+  - constructor.
+  - intros n; split; [intros [] | intros [H _]; lia].
 Qed.
 
 (** monotonicity of the ghost predicates *)
@@ -400,7 +603,7 @@ Lemma res_ok_weaken : forall st ci ac st' ci' n r,
 Proof.
   intros st ci ac st' ci' n r Hci Hsub Hn H. destruct r; auto.
   - simpl in *. destruct H as [c [l [Hin Hl]]]. exists c, l; auto.
-  - apply (reason_ok_weaken st ci ac st' ci' n RNodes); auto.
+  - simpl in *. destruct H as [c [l [Hin Hl]]]. exists c, l; auto.
   - apply (reason_ok_weaken st ci ac st' ci' n (RTimer k tok cr)); auto.
   - apply (reason_ok_weaken st ci ac st' ci' n (RStop c)); auto.
 Qed.
@@ -463,10 +666,10 @@ Proof.
   unfold tstep in H. destruct I.
   destruct (B_timers0 th F) as [Hle Hcr].
   destruct (tpcv th); try destruct (tok_get (ttok th) (toks s)) eqn:Etok; inv_some;
-    constructor; unfold upd_t, allcalls, ndone, pending, nacc in *; simpl; auto.
+    constructor; unfold upd_t, allcalls, unsent_ids, nacc in *; simpl; auto.
   all: try (intros tm Hin; apply in_put_t in Hin; destruct Hin as [Hin|Hin]; [subst; simpl; auto | auto]; fail).
   all: try (intros tm Hin; apply in_del_t in Hin; auto; fail).
-  all: try (intros n0 r0 Hg; apply tok_get_set in Hg; destruct Hg as [Hg|[E1 [E2 Hg]]]; [auto | subst; simpl; auto]; fail).
+  all: try (intros n0 r0 Hg; apply tok_get_set in Hg; destruct Hg as [Hg|[E1 [E2 Hg]]]; [auto | subst; split; [simpl; auto | discriminate]]; fail).
   all: try (intros th0 Hin Hb Hg; apply tok_get_set in Hg; destruct Hg as [Hg|[E1 [E2 Hg]]]; [eapply B_noend0; eauto | discriminate]).
   all: intro Eg; destruct (B_fresh0 Eg) as [Hn Hlt]; split;
        [ try (rewrite tok_get_set_other; [auto | specialize (Hlt th F); lia]); auto
@@ -474,21 +677,24 @@ Proof.
                               | apply in_del_t in Hin; auto ] ].
 Qed.
 
-Lemma invB_search : forall s n c s', InvA s -> InvB s -> step s (TSearch n c) = Some s' -> InvB s'.
+Lemma invB_search : forall s n c s' th, InvA s -> InvB s -> find_s n (srch s) = Some th -> sstep s th c = Some s' -> InvB s'.
 Proof.
-  intros s n c s' IA I H. unfold step in H. rewrite (A_pan _ IA) in H.
-  destruct (find_s n (srch s)) as [th|] eqn:F; try discriminate.
+  intros s n c s' th IA I F H.
   destruct (srch_single _ _ _ (A_one _ IA) F) as [Es En]. clear F.
   assert (Hgo : cpcv s <> CStGo).
   { intro E. pose proof (A_excl _ IA) as X. rewrite E in X. specialize (X eq_refl). congruence. }
   assert (Herr := A_err _ IA).
   destruct (A_sid _ IA th) as [Esid [Elim Epar]]. { rewrite Es; simpl; auto. }
-  destruct I as [Bdone Bids Bcidx Bcur Blimvar Bsrch Btok Btimers Bnoend Bsreason Bwaited Bres Bresids Bpcs Bpos Bfresh Bph].
-  unfold ndone, pending in *. rewrite Es in *.
-  destruct (Bsrch th (or_introl eq_refl)) as [cst Hst].
-  specialize (Bnoend th (or_introl eq_refl)). specialize (Bwaited th (or_introl eq_refl)).
+  destruct I as [Bdone Bids Bcidx Bcur Blimvar Bsrch Btok Btimers Bnoend Bsreason Bwaited Bres Bresnd Bresin Bpcs Bpos Bfresh Bph].
+  unfold unsent_ids in *. rewrite Es in *.
+  destruct (Bsrch th (or_introl (or_introl eq_refl))) as [cst Hst].
+  specialize (Bnoend th (or_introl eq_refl)). pose proof (Bwaited th (or_introl (or_introl eq_refl))) as Bw.
   specialize (Bpcs th (or_introl eq_refl)).
-  assert (Bsr := fun r => Bsreason th r (or_introl eq_refl)). clear Bsreason.
+  assert (Bsr := fun r => Bsreason th r (or_introl (or_introl eq_refl))).
+  assert (Bsrn := fun t (Ht : In t (senders s)) => Bsrch t (or_intror Ht)).
+  assert (Bsrsn := fun t r (Ht : In t (senders s)) => Bsreason t r (or_intror Ht)).
+  assert (Bwn := fun t (Ht : In t (senders s)) => Bwaited t (or_intror Ht)).
+  clear Bsrch Bsreason Bwaited.
   assert (Hpos : 1 <= stopPtr s). { apply Bpos. left. discriminate. }
   unfold sstep, goto_s, upd_s, out_stage1, out_stage2, out_stage3 in H. rewrite Elim, Es, ?Herr in H.
   destruct (spcv th) eqn:Epc; destruct c; try discriminate;
@@ -498,35 +704,173 @@ Proof.
   end;
   try inv_some.
   all: simpl in *; subst.
-  all: unfold rel_init, rel_run, rel_out, new_timer, emit, after_init_s.
+  all: unfold rel_init, rel_run, rel_out, new_timer, emit, after_init_s, acq_out.
   all: simpl; rewrite ?Es; simpl; rewrite ?Nat.eqb_refl; simpl.
   all: repeat match goal with |- context [if ?b then _ else _] => destruct b eqn:? end.
   all: simpl; rewrite ?Es; simpl; rewrite ?Nat.eqb_refl; simpl.
-  all: constructor; unfold allcalls, ndone, pending, nacc in *; simpl; rewrite ?Es; simpl; auto.
+  all: constructor; unfold allcalls, unsent_ids, nacc in *; simpl; rewrite ?Es; simpl; auto.
   all: try (intros; dest_in; simpl in *; eauto; try discriminate; try congruence; fail).
   all: try (intros; contradiction).
+  (* facts about the (updated) search goroutine and the untouched senders *)
+  all: try (intros th0 Hx; repeat match goal with H : _ \/ _ |- _ => destruct H as [H|H] end; try contradiction;
+            [ subst; simpl in *; eauto | apply Bsrn; assumption ]; fail).
+  all: try (intros th0 r0 Hx Hr; repeat match goal with H : _ \/ _ |- _ => destruct H as [H|H] end; try contradiction;
+            [ subst; simpl in *; first [ apply Bsr; assumption | discriminate
+                | inversion Hr; subst; split; [rewrite Esid; apply Btok; auto | intro; subst; apply Bnoend; auto] ]
+            | apply (Bsrsn th0 r0); assumption ]; fail).
+  all: try (intros th0 Hx Ha Hf; repeat match goal with H : _ \/ _ |- _ => destruct H as [H|H] end; try contradiction;
+            [ subst; simpl in *; first [ discriminate | apply Bw; auto; fail | congruence ]
+            | apply (Bwn th0); assumption ]; fail).
   (* new timer *)
   all: try (intros tm [E|Hin]; [subst; simpl; split; [lia | split; [auto | exists cst, (slim th); rewrite <- Esid; auto]] | auto]; fail).
-  (* reason read from the token *)
-  all: try (intros th0 r0 [E|[]] Hr; subst; simpl in *; inversion Hr; subst; split;
-            [rewrite Esid; apply Btok; auto | intro; subst; apply Bnoend; auto]; fail).
   (* token stores *)
   all: try (intros n0 r0 Hg; apply tok_get_set in Hg; destruct Hg as [Hg|[E1 [E2 Hg]]]; [auto | subst; simpl];
             exists cst, (slim th); rewrite <- Esid; auto; fail).
   all: try (intros th0 Hin Hb Hg; apply tok_get_set in Hg; destruct Hg as [Hg|[E1 [E2 Hg]]]; [apply Bnoend; auto | discriminate]; fail).
+  (* node limit *)
+  all: try (intros th0 r0 Hx Hr; repeat match goal with H : _ \/ _ |- _ => destruct H as [H|H] end; try contradiction;
+            [ subst; simpl in *; inversion Hr; subst; split; [simpl; exists cst, (slim th); split; [exact Hst | assumption] | discriminate]
+            | apply (Bsrsn th0 r0); assumption ]; fail).
+  (* wait loop left with the setter of the token *)
+  all: try (intros th0 Hx Ha Hf; repeat match goal with H : _ \/ _ |- _ => destruct H as [H|H] end; try contradiction;
+            [ subst; simpl in *; split; [discriminate | intro X; inversion X; subst;
+                match goal with H : tok_get _ _ = Some RNodes |- _ => destruct (Btok _ _ H) as [_ Y]; apply Y; reflexivity end]
+            | apply (Bwn th0); assumption ]; fail).
+  all: try (intros n0 r0 Hg; apply tok_get_set in Hg; destruct Hg as [Hg|[E1 [E2 Hg]]]; [auto | subst; split; [simpl; exists cst, (slim th); rewrite <- Esid; auto | discriminate]]; fail).
+Qed.
+
+Definition unsent_f (th : sthread) : bool := negb (sent (spcv th)).
+Lemma in_unsent : forall l n, In n (map sid (filter unsent_f l)) <-> exists t, In t l /\ sid t = n /\ unsent_f t = true.
+Proof.
+  intros l n. rewrite in_map_iff. split.
+  - intros [t [E Ht]]. apply filter_In in Ht. exists t. tauto.
+  - intros [t [Ht [E F]]]. exists t. split; auto. apply filter_In. auto.
+Qed.
+Lemma sid_unique : forall l th t, NoDup (map sid l) -> In th l -> In t l -> sid t = sid th -> t = th.
+Proof.
+  induction l as [|a l IH]; simpl; intros th t ND Hth Ht E; try contradiction. inversion ND; subst.
+  destruct Hth as [E1|Hth], Ht as [E2|Ht]; subst; auto.
+  - exfalso. apply H1. apply in_map_iff. exists t. auto.
+  - exfalso. apply H1. apply in_map_iff. exists th. auto.
+Qed.
+Lemma unsent_put_same : forall l th th' n, NoDup (map sid l) -> In th l -> sid th' = sid th -> unsent_f th' = unsent_f th ->
+  (In n (map sid (filter unsent_f (put_s th' l))) <-> In n (map sid (filter unsent_f l))).
+Proof.
+  intros l th th' n ND Hth Es Ef. rewrite !in_unsent. split.
+  - intros [t [Ht [E F]]]. apply in_put_s in Ht. destruct Ht as [Ht|[Ht Hne]].
+    + subst. exists th. rewrite <- Ef. auto.
+    + exists t. auto.
+  - intros [t [Ht [E F]]]. destruct (Nat.eq_dec (sid t) (sid th)) as [Eq|Ne].
+    + assert (t = th) by (eapply sid_unique; eauto). subst t. exists th'. split; [|split; congruence].
+      unfold put_s. apply in_map_iff. exists th. split; auto. rewrite Es, Nat.eqb_refl. reflexivity.
+    + exists t. split; auto. unfold put_s. apply in_map_iff. exists t. split; auto.
+      destruct (Nat.eqb_spec (sid t) (sid th')); auto. congruence.
+Qed.
+Lemma unsent_put_sent : forall l th th' n, NoDup (map sid l) -> In th l -> sid th' = sid th -> unsent_f th' = false ->
+  (In n (map sid (filter unsent_f (put_s th' l))) <-> (In n (map sid (filter unsent_f l)) /\ n <> sid th)).
+Proof.
+  intros l th th' n ND Hth Es Ef. rewrite !in_unsent. split.
+  - intros [t [Ht [E F]]]. apply in_put_s in Ht. destruct Ht as [Ht|[Ht Hne]].
+    + subst. congruence.
+    + split; [exists t; auto | congruence].
+  - intros [[t [Ht [E F]]] Hne]. exists t. split; auto.
+    unfold put_s. apply in_map_iff. exists t. split; auto. destruct (Nat.eqb_spec (sid t) (sid th')); auto. congruence.
+Qed.
+Lemma unsent_del : forall l k n, (In n (map sid (filter unsent_f (del_s k l))) <-> (In n (map sid (filter unsent_f l)) /\ n <> k)).
+Proof.
+  intros l k n. rewrite !in_unsent. split.
+  - intros [t [Ht [E F]]]. apply in_del_s in Ht. destruct Ht. split; [exists t; auto | congruence].
+  - intros [[t [Ht [E F]]] Hne]. exists t. split; auto. unfold del_s. apply filter_In. split; auto.
+    destruct (Nat.eqb_spec (sid t) k); auto. congruence.
+Qed.
+
+Lemma starts_unique : forall (st : starts_t) n c l c' l', NoDup (start_ids st) ->
+  In (n, c, l) st -> In (n, c', l') st -> c = c' /\ l = l'.
+Proof.
+  unfold start_ids. induction st as [|x st IH]; simpl; intros n c l c' l' ND H1 H2; try contradiction.
+  inversion ND; subst. destruct H1 as [H1|H1], H2 as [H2|H2]; subst.
+  - inversion H2; auto.
+  - exfalso. apply H3. apply in_map_iff. exists (n, c', l'). auto.
+  - exfalso. apply H3. apply in_map_iff. exists (n, c, l). auto.
+  - eapply IH; eauto.
+Qed.
+
+Lemma invB_sender : forall s n s' th, InvA s -> InvB s -> find_s n (senders s) = Some th -> nstep s th = Some s' -> InvB s'.
+Proof.
+  intros s n s' th IA I F H. destruct (find_s_in _ _ _ F) as [Hin En]. clear F.
+  assert (Herr := A_err _ IA). assert (Hnd := A_sndnd _ IA).
+  destruct (A_snd _ IA th Hin) as [Hpc [Hle Hlt]].
+  assert (Hsr : forall t, In t (srch s) -> sid t <> sid th).
+  { intros t Ht. destruct (A_sid _ IA t Ht) as [E _]. assert (sid th < stopPtr s). { apply Hlt. left. intro X. rewrite X in Ht. contradiction. } lia. }
+  destruct I as [Bdone Bids Bcidx Bcur Blimvar Bsrch Btok Btimers Bnoend Bsreason Bwaited Bres Bresnd Bresin Bpcs Bpos Bfresh Bph].
+  destruct (Bsrch th (or_intror Hin)) as [cst Hst].
+  pose proof (Bwaited th (or_intror Hin)) as Bw. pose proof (fun r => Bsreason th r (or_intror Hin)) as Bsr.
+  unfold nstep, upd_n, out_stage1, out_stage2, out_stage3 in H. rewrite ?Herr in H.
+  destruct (spcv th) eqn:Epc; try discriminate; simpl in Hpc;
+  repeat match goal with
+  | H : (if ?b then _ else _) = Some _ |- _ => destruct b eqn:?; try discriminate
+  end; try inv_some.
+  all: unfold rel_out, emit, acq_out.
+  all: repeat match goal with |- context [if ?b then _ else _] => destruct b eqn:? end.
+  all: constructor; unfold allcalls, unsent_ids, nacc in *; simpl; auto.
+  (* thread facts *)
+  all: try (intros th0 [Hx|Hx]; [ apply Bsrch; left; exact Hx
+            | first [apply in_put_s in Hx; destruct Hx as [Hx|[Hx _]]; [subst; simpl; eauto | apply Bsrch; right; exact Hx]
+                    | apply in_del_s in Hx; destruct Hx as [Hx _]; apply Bsrch; right; exact Hx] ]; fail).
+  all: try (intros th0 r0 [Hx|Hx] Hr; [ apply Bsreason; [left; exact Hx | exact Hr]
+            | first [apply in_put_s in Hx; destruct Hx as [Hx|[Hx _]]; [subst; simpl in *; apply Bsr; exact Hr | apply Bsreason; [right; exact Hx | exact Hr]]
+                    | apply in_del_s in Hx; destruct Hx as [Hx _]; apply Bsreason; [right; exact Hx | exact Hr]] ]; fail).
+  all: try (intros th0 [Hx|Hx] Ha Hf; [ apply Bwaited; [left; exact Hx | exact Ha | exact Hf]
+            | first [apply in_put_s in Hx; destruct Hx as [Hx|[Hx _]]; [subst; simpl in *; apply Bw; [rewrite Epc; reflexivity | exact Hf] | apply Bwaited; [right; exact Hx | exact Ha | exact Hf]]
+                    | apply in_del_s in Hx; destruct Hx as [Hx _]; apply Bwaited; [right; exact Hx | exact Ha | exact Hf]] ]; fail).
+  all: change (fun th : sthread => negb (sent (spcv th))) with unsent_f in *.
+  all: assert (Hge : 1 <= sid th)
+         by (assert (X : In (sid th) (start_ids (starts s))) by (unfold start_ids; apply in_map_iff; exists (sid th, cst, slim th); auto);
+             rewrite Bids in X; apply in_rev in X; apply in_seq in X; lia).
+  all: assert (Hgo : cpcv s = CStGo -> sid th < stopPtr s) by (intro X; apply Hlt; auto).
+  all: assert (Hth_un : unsent_f th = true -> In (sid th) (map sid (filter unsent_f (senders s))))
+         by (intro X; apply in_unsent; exists th; auto).
+  all: assert (Hth_sent : unsent_f th = false -> ~ In (sid th) (map sid (filter unsent_f (senders s))))
+         by (intros X Y; apply in_unsent in Y; destruct Y as [t [Ht [E F]]];
+             assert (t = th) by (eapply sid_unique; eauto); subst; congruence).
+  (* results and unsent ids *)
+  all: try (intros n0; rewrite (Bresin n0); rewrite !in_app_iff;
+            first [ rewrite (unsent_put_same (senders s) th _ n0 Hnd Hin eq_refl) by (unfold unsent_f; simpl; rewrite Epc; reflexivity); tauto
+                  | rewrite unsent_del; split; intros [R U]; split; auto; intros [X|[X|X]]; apply U; auto;
+                    [ destruct X; auto | right; left; split; auto; intro; subst; apply (Hth_sent ltac:(unfold unsent_f; rewrite Epc; reflexivity)); auto ] ]; fail).
+  all: try (intros n0; rewrite (Bresin n0); rewrite !in_app_iff;
+            rewrite (unsent_put_same (senders s) th _ n0 Hnd Hin eq_refl) by (unfold unsent_f; simpl; rewrite ?Epc; reflexivity); tauto).
+  all: try (intros n0; rewrite (Bresin n0); rewrite !in_app_iff;
+            match goal with |- context [put_s ?x _] =>
+              rewrite (unsent_put_same (senders s) th x n0 Hnd Hin eq_refl) by (unfold unsent_f; simpl; rewrite ?Epc; reflexivity) end; tauto).
+  (* B_waited *)
+  all: try (intros th0 [Hx|Hx] Ha Hf; [ apply Bwaited; [left; exact Hx | exact Ha | exact Hf] |];
+            apply in_put_s in Hx; destruct Hx as [Hx|[Hx _]];
+            [ subst; simpl in *; apply Bw; [first [reflexivity | rewrite Epc; reflexivity] | exact Hf] | apply Bwaited; [right; exact Hx | exact Ha | exact Hf] ]).
   (* the result *)
-  all: try (intros n0 r0 [E|Hin]; [inversion E; subst; split; [|lia] | auto];
-            unfold result_reason; destruct (sreason th) as [r|] eqn:Esr;
-            [ destruct (Bsr r eq_refl) as [Hok Hne]; rewrite Esid in Hok; destruct r; simpl in *; auto; try contradiction; congruence
-            | simpl; exists cst, (slim th); rewrite <- Esid; split; auto;
-              destruct (lPonder (slim th) || lInfinite (slim th)) eqn:Ew; auto; exfalso; apply Bwaited; auto ]; fail).
-  all: try (rewrite Bresids; replace (stopPtr s - 0) with (S (stopPtr s - 1)) by lia; rewrite seq_rev_S; f_equal; lia).
-  all: try (destruct (cpcv s); try congruence; auto; fail).
-  intros n0 r0 [E|Hin]; [inversion E; subst; split; [|lia] | auto].
-  unfold result_reason; destruct (sreason th) as [r|] eqn:Esr.
-  - destruct (Bsr r eq_refl) as [Hok Hne]. destruct r; simpl in *; auto; try contradiction; try congruence.
-  - simpl. exists cst, (slim th). split; auto.
-    destruct (lPonder (slim th) || lInfinite (slim th)) eqn:Ew; auto. exfalso; apply Bwaited; auto.
+  - intros n0 r0 [E|Hin']; [inversion E; subst; split; [|lia] | auto].
+    unfold result_reason; destruct (sreason th) as [r|] eqn:Esr.
+    + destruct (Bsr r eq_refl) as [Hok Hne]. destruct r; simpl in *; auto; try contradiction; try congruence.
+      destruct Hok as [c0 [l0 [Hx Hy]]]. exists cst, (slim th). split; auto.
+      assert (El : l0 = slim th).
+      { assert (ND : NoDup (start_ids (starts s))) by (rewrite Bids; apply NoDup_rev; apply seq_NoDup).
+        destruct (starts_unique _ _ _ _ _ _ ND Hx Hst); auto. }
+      subst l0. split; auto.
+      destruct (lPonder (slim th) || lInfinite (slim th)) eqn:Ew; auto. exfalso. destruct (Bw eq_refl eq_refl) as [_ Z]. apply Z; auto.
+    + simpl. exists cst, (slim th). split; auto.
+      destruct (lPonder (slim th) || lInfinite (slim th)) eqn:Ew; auto. exfalso. destruct (Bw eq_refl eq_refl) as [X _]. apply X; auto.
+  - constructor; auto. intro X. apply Bresin in X. destruct X as [_ X]. apply X.
+    rewrite !in_app_iff. right. left. apply Hth_un. unfold unsent_f. rewrite Epc. reflexivity.
+  - intros n0. rewrite !in_app_iff.
+    rewrite (unsent_put_sent (senders s) th (set_spc SRes2 th) n0 Hnd Hin eq_refl) by reflexivity.
+    split.
+    + intros [E|X].
+      * subst. split; [lia|]. intros [Y|[[_ Y]|Y]]; try congruence.
+        { apply in_map_iff in Y. destruct Y as [t [E Ht]]. apply (Hsr t Ht). auto. }
+        { destruct (cpcv s); simpl in Y; try contradiction. destruct Y as [Y|[]]. specialize (Hgo eq_refl). lia. }
+      * apply Bresin in X. destruct X as [R U]. split; auto. rewrite !in_app_iff in U. tauto.
+    + intros [R U]. destruct (Nat.eq_dec n0 (sid th)); [left; auto | right]. apply Bresin. split; auto.
+      rewrite !in_app_iff. tauto.
 Qed.
 
 Lemma tok_get_fresh : forall l, tok_get (length l) (l ++ [None]) = None.
@@ -543,9 +887,11 @@ Proof.
   intros s s' IA I H. unfold step in H. rewrite (A_pan _ IA) in H.
   assert (Herr := A_err _ IA). assert (Hone := A_one _ IA). assert (Hcall := A_call _ IA).
   assert (Hcp := A_cparam _ IA). assert (Hexcl := A_excl _ IA). assert (Hlim := A_lim _ IA).
-  assert (Htoks := A_toks _ IA). assert (Hsid := A_sid _ IA). assert (Hrun := A_run _ IA).
-  destruct I as [Bdone Bids Bcidx Bcur Blimvar Bsrch Btok Btimers Bnoend Bsreason Bwaited Bres Bresids Bpcs Bpos Bfresh Bph].
-  unfold cstep, cur_call, cparam_ok, ndone, pending, nacc, allcalls in *.
+  assert (Htoks := A_toks _ IA). assert (Hsid := A_sid _ IA). assert (Hrun := A_run _ IA). assert (Hsnd := A_snd _ IA).
+  assert (Hsidle : forall t, In t (srch s) \/ In t (senders s) -> sid t <= stopPtr s).
+  { intros t [Ht|Ht]; [destruct (Hsid t Ht); lia | destruct (Hsnd t Ht) as [_ [X _]]; auto]. }
+  destruct I as [Bdone Bids Bcidx Bcur Blimvar Bsrch Btok Btimers Bnoend Bsreason Bwaited Bres Bresnd Bresin Bpcs Bpos Bfresh Bph].
+  unfold cstep, cur_call, cparam_ok, unsent_ids, nacc, allcalls in *.
   unfold out_stage1, out_stage2, out_stage3 in H. rewrite ?Herr in H.
   destruct (calls s) as [|c cs] eqn:Ec; simpl in *; try discriminate.
   assert (Hnth := nth_allcalls s c cs Bdone Ec). rewrite Ec in Hnth.
@@ -555,12 +901,12 @@ Proof.
     | H : match limitsVar ?s with _ => _ end = Some _ |- _ => destruct (limitsVar s) eqn:?
     end; try inv_some; try discriminate.
   all: simpl in *.
-  all: unfold rel_init, rel_run, rel_out, new_timer, emit_opt, emit, after_init_c.
+  all: unfold rel_init, rel_run, rel_out, new_timer, emit_opt, emit, after_init_c, acq_out.
   all: repeat match goal with |- context [if ?b then _ else _] => destruct b eqn:? end.
   all: repeat match goal with |- context [match ?b with Some _ => _ | None => _ end] => destruct b eqn:? end.
   all: repeat match goal with |- context [match ?b with LReady => _ | _ => _ end] => destruct b eqn:? end.
   all: simpl.
-  all: constructor; unfold allcalls, ndone, pending, nacc in *; simpl; rewrite ?Ec, ?Epc; simpl; auto; try discriminate; try congruence.
+  all: constructor; unfold allcalls, unsent_ids, nacc in *; simpl; rewrite ?Ec, ?Epc; simpl; auto; try discriminate; try congruence.
   all: try (intros _; apply Blimvar; discriminate).
   all: try (intros [Hs|Hs]; [apply Bpos; auto | discriminate]).
   all: rewrite <- ?app_assoc; simpl.
@@ -581,9 +927,9 @@ Proof.
   all: try (intros th0 Hin; destruct (Bsrch th0 Hin) as [c0 ?]; exists c0; right; auto; fail).
   all: try (intros n0 r0 Hg; eapply reason_ok_weaken; [ | | | apply Btok; eauto]; [lia | intros; right; auto | intros c0 l0 [E|Hin]; [inversion E; subst; apply tok_get_lt in Hg; lia | auto]]; fail).
   all: try (intros tm Hin; destruct (Btimers tm Hin); split; auto; eapply creator_ok_weaken; [ | | | eauto]; [lia | intros; right; auto | intros c0 l0 [E|Hin']; [inversion E; subst; lia | auto]]; fail).
-  all: try (intros th0 r0 Hin Hr; destruct (Bsreason th0 r0 Hin Hr); split; auto; eapply reason_ok_weaken; [ | | | eauto]; [lia | intros; right; auto | intros c0 l0 [E|Hin']; [inversion E; subst; destruct (Hsid th0 Hin); lia | auto]]; fail).
+  all: try (intros th0 r0 Hin Hr; destruct (Bsreason th0 r0 Hin Hr); split; auto; eapply reason_ok_weaken; [ | | | eauto]; [lia | intros; right; auto | intros c0 l0 [E|Hin']; [inversion E; subst; specialize (Hsidle th0 Hin); lia | auto]]; fail).
   all: try (intros n0 r0 Hin; destruct (Bres n0 r0 Hin); split; auto; eapply res_ok_weaken; [ | | | eauto]; [lia | intros; right; auto | intros c0 l0 [E|Hin']; [inversion E; subst; lia | auto]]; fail).
-  (* token allocation and go statement: no search goroutine is live *)
+  (* token allocation and go statement: no search goroutine owns isRunning *)
   all: try (assert (Hnil : srch s = []) by (apply Hexcl; reflexivity); rewrite ?Hnil in * ).
   all: rewrite ?Htoks.
   all: try exact Bids.
@@ -592,28 +938,46 @@ Proof.
   all: try (intros tm Hin; destruct (Btimers tm Hin); split; [lia | auto]; fail).
   all: try (intros th0 Hin; contradiction).
   all: try (intros n0 r0 Hin; destruct (Bres n0 r0 Hin); split; [auto | lia]; fail).
-  all: try (simpl in *; replace (S (stopPtr s) - 1) with (stopPtr s - 0) by lia; exact Bresids).
   all: try (intros; lia).
   all: try (intros _; split; [rewrite <- Htoks; apply tok_get_fresh | intros tm Hin; destruct (Btimers tm Hin); lia]; fail).
   all: try (intros th0 [E|[]]; subst; simpl; auto; try discriminate;
-            try (destruct Bcur as [l' [E1 E2]]; inversion E1; subst; eauto; fail);
             try (intros _; destruct (Bfresh eq_refl) as [X _]; rewrite X; discriminate); fail).
-  all: try (intros th0 r0 [E|[]]; subst; simpl; discriminate).
-  all: try exact Bresids.
+  all: try (intros th0 [[E|[]]|Hx]; [subst; simpl; destruct Bcur as [l' [E1 E2]]; inversion E1; subst; eauto | apply Bsrch; right; exact Hx]; fail).
+  all: try (intros th0 r0 [[E|[]]|Hx] Hr; [subst; simpl in *; discriminate | apply Bsreason; [right; exact Hx | exact Hr]]; fail).
+  all: try (intros th0 [[E|[]]|Hx] Ha Hf; [subst; simpl in *; discriminate | apply Bwaited; [right; exact Hx | exact Ha | exact Hf]]; fail).
   (* ponderhit *)
   all: try (intros _ l0 Hl; apply Blimvar; [discriminate | congruence]; fail).
   all: try (eexists; split; eauto; fail).
-  intros tm [E|Hin]; [subst; simpl | auto].
-  split; [lia|]. split; [lia|]. split; [exact Hnth|]. split.
-  - intros c' l' Hin. destruct (Bcidx _ _ _ Hin) as [|[? [X ?]]]; [auto | discriminate X].
-  - destruct Bph as [l0 [Hl Hp]]. destruct (Blimvar ltac:(discriminate) l0 Hl) as [c0 Hc]. eauto.
+  (* strengthened token invariant *)
+  all: try (intros n0 r0 Hg; destruct (Btok n0 r0 Hg) as [X Y]; split; [|exact Y];
+            eapply reason_ok_weaken; [ | | | exact X]; auto; fail).
+  all: try (intros n0 r0 Hg; destruct (Btok n0 r0 Hg) as [X Y]; split; [|exact Y];
+            eapply reason_ok_weaken; [ | | | exact X]; [lia | intros; right; auto | intros c0 l0 [E|Hin]; [inversion E; subst; apply tok_get_lt in Hg; lia | auto]]; fail).
+  all: try (intros n0 r0 Hg; apply tok_get_set in Hg; destruct Hg as [Hg|[E1 [E2 Hg]]]; [auto | subst; split; [|discriminate]; simpl; split; [lia | split; [rewrite Hnth; auto | intros c' l' Hin; destruct (Bcidx _ _ _ Hin) as [|[? [X ?]]]; [auto | discriminate X]]]]; fail).
+  - (* CStTok -> CStGo: the new id is in range but not yet sent *)
+    intros n0. rewrite (Bresin n0). simpl. rewrite !in_app_iff. simpl. split.
+    + intros [R U]. split; [lia|]. intros [X|[X|[]]]; try lia. apply U. left. exact X.
+    + intros [R U]. assert (n0 <> S (stopPtr s)) by (intro; apply U; right; left; auto).
+      split; [lia|]. intros [X|X]; try contradiction. apply U. left. exact X.
+  - (* CStGo -> CStWait *)
+    intros n0. rewrite (Bresin n0). simpl. rewrite !in_app_iff. simpl. split.
+    + intros [R U]. split; auto. tauto.
+    + intros [R U]. split; auto. tauto.
+  - intros tm [E|Hin]; [subst; simpl | auto].
+    split; [lia|]. split; [lia|]. split; [exact Hnth|]. split.
+    + intros c' l' Hin. destruct (Bcidx _ _ _ Hin) as [|[? [X ?]]]; [auto | discriminate X].
+    + destruct Bph as [l0 [Hl Hp]]. destruct (Blimvar ltac:(discriminate) l0 Hl) as [c0 Hc]. eauto.
 Qed.
 
 Lemma invB_step : forall s t s', InvA s -> InvB s -> step s t = Some s' -> InvB s'.
 Proof.
   intros s t s' IA I H. destruct t.
   - eapply invB_ctl; eauto.
-  - eapply invB_search; eauto.
+  - unfold step in H. rewrite (A_pan _ IA) in H.
+    destruct (find_s n (srch s)) as [th|] eqn:F.
+    + eapply invB_search; eauto.
+    + destruct (find_s n (senders s)) as [th|] eqn:F2; try discriminate. destruct c; try discriminate.
+      eapply invB_sender; eauto.
   - eapply invB_timer; eauto.
   - unfold step in H. rewrite (A_pan _ IA) in H. inv_some. apply invB_tick; auto.
 Qed.
@@ -635,256 +999,6 @@ Proof.
 Qed.
 
 
-(** * start_while_running_rejected *)
-
-(* the state components a rejected start must not touch *)
-Definition same_search_state (s s' : state) : Prop :=
-  curPos s' = curPos s /\ limitsVar s' = limitsVar s /\ stopPtr s' = stopPtr s /\ toks s' = toks s /\
-  srch s' = srch s /\ timers s' = timers s /\ ntimers s' = ntimers s /\ starts s' = starts s /\
-  runFree s' = runFree s /\ initFree s' = initFree s /\ timeLimit s' = timeLimit s /\ extraTime s' = extraTime s /\
-  results s' = results s.
-
-Lemma ctl_dispatch_start : forall s l, panicked s = false -> cpcv s = CIdle -> cur_call s = Some (CStart l) ->
-  step s TCtl = Some (set_cpcv CStTry s).
-Proof. intros s l Hp Hpc Hc. unfold step, cstep. rewrite Hp, Hc, Hpc. reflexivity. Qed.
-Lemma ctl_try_rejected : forall s l, panicked s = false -> cpcv s = CStTry -> cur_call s = Some (CStart l) -> runFree s = false ->
-  step s TCtl = Some (set_cpcv (CRet (Some EStartRejected)) s).
-Proof. intros s l Hp Hpc Hc Hr. unfold step, cstep. rewrite Hp, Hc, Hpc, Hr. reflexivity. Qed.
-Lemma ctl_return : forall s r c, panicked s = false -> cpcv s = CRet r -> cur_call s = Some c ->
-  step s TCtl = Some (set_cpcv CIdle (set_cidx (S (cidx s)) (set_done (c :: done s) (set_calls (tl (calls s)) (emit_opt r s))))).
-Proof. intros s r c Hp Hpc Hc. unfold step, cstep. rewrite Hp, Hc, Hpc. reflexivity. Qed.
-
-Theorem start_while_running_rejected : forall s l,
-  panicked s = false -> cpcv s = CIdle -> cur_call s = Some (CStart l) -> runFree s = false ->
-  let s3 := run_sched s [TCtl; TCtl; TCtl] in
-  same_search_state s s3 /\ cpcv s3 = CIdle /\ calls s3 = tl (calls s) /\ cidx s3 = S (cidx s) /\
-  trace s3 = EStartRejected :: trace s.
-Proof.
-  intros s l Hp Hpc Hc Hr. cbv zeta. unfold run_sched.
-  rewrite (ctl_dispatch_start s l Hp Hpc Hc).
-  rewrite (ctl_try_rejected (set_cpcv CStTry s) l Hp eq_refl Hc Hr).
-  rewrite (ctl_return (set_cpcv (CRet (Some EStartRejected)) (set_cpcv CStTry s)) (Some EStartRejected) (CStart l) Hp eq_refl Hc).
-  unfold same_search_state. cbn. repeat split; reflexivity.
-Qed.
-
-(* the decision itself, for an arbitrary interleaving: whenever the TryAcquire of a StartSearch is executed
-   while isRunning is held, the call is rejected in that step, nothing of the running search changes, no
-   goroutine is created, and the remaining controller step (return) is never blocked *)
-Theorem start_rejected_step : forall s l,
-  panicked s = false -> cpcv s = CStTry -> cur_call s = Some (CStart l) -> runFree s = false ->
-  exists s', step s TCtl = Some s' /\ cpcv s' = CRet (Some EStartRejected) /\ same_search_state s s' /\
-             trace s' = trace s /\ calls s' = calls s.
-Proof.
-  intros s l Hp Hpc Hc Hr. unfold step, cstep. rewrite Hp, Hc, Hpc, Hr. eexists; split; [reflexivity|].
-  unfold same_search_state; simpl; repeat split; auto.
-Qed.
-
-(* the controller steps of a rejected StartSearch (dispatch, TryAcquire, return) are enabled in every state *)
-Theorem start_rejected_never_blocks : forall s,
-  panicked s = false -> cur_call s <> None ->
-  (cpcv s = CIdle \/ (cpcv s = CStTry /\ exists l, cur_call s = Some (CStart l)) \/ exists r, cpcv s = CRet r) ->
-  step s TCtl <> None.
-Proof.
-  intros s Hp Hc H. unfold step, cstep. rewrite Hp. destruct (cur_call s) as [c|]; try congruence.
-  destruct H as [H|[[H [l Hl]]|[r H]]]; rewrite H; try discriminate.
-  inversion Hl; subst. destruct (runFree s); discriminate.
-Qed.
-
-Example start_while_running_rejected_nonvacuous :
-  let s := run_sched (init true false false [CStart (mkLimits true false false 0 false false); CStart (mkLimits false false false 0 false false)])
-                     [TCtl; TCtl; TCtl; TCtl; TCtl; TCtl; TCtl; TSearch 1 Go; TSearch 1 Go; TSearch 1 Go; TSearch 1 Go; TSearch 1 Go; TSearch 1 Go; TSearch 1 Go;
-                      TSearch 1 Go; TSearch 1 Go; TSearch 1 Go; TSearch 1 Go; TCtl; TCtl; TCtl] in
-  (panicked s, cpcv s, cur_call s, runFree s, map sid (srch s)) =
-  (false, CIdle, Some (CStart (mkLimits false false false 0 false false)), false, [1]).
-Proof. vm_compute. reflexivity. Qed.
-
-(** * one_result_per_start, result_belongs_to_start *)
-
-Definition start_pending (p : cpc) : bool :=     (* accepted, goroutine not yet created *)
-  match p with CStAcqInit | CStPos | CStLim | CStTok | CStGo => true | _ => false end.
-(* accepted start n has finished: its goroutine has been created and has ended *)
-Definition finished (s : state) (n : nat) : Prop :=
-  In n (start_ids (starts s)) /\ ~ In n (map sid (srch s)) /\ ~ (n = nacc s /\ start_pending (cpcv s) = true).
-
-Lemma NoDup_rev_seq : forall k, NoDup (rev (seq 1 k)).
-Proof. intros. apply NoDup_rev. apply seq_NoDup. Qed.
-Lemma in_rev_seq : forall k n, In n (rev (seq 1 k)) <-> 1 <= n <= k.
-Proof. intros. rewrite <- in_rev. rewrite in_seq. lia. Qed.
-
-Lemma ndone_le_nacc : forall s, Inv s -> ndone s <= nacc s.
-Proof. intros s [IA IB]. unfold ndone, nacc. destruct (cpcv s), (pending s); lia. Qed.
-
-Theorem one_result_per_start : forall s, reachable s ->
-  length (results s) <= length (starts s) /\
-  NoDup (map fst (results s)) /\
-  (forall n, In n (map fst (results s)) -> In n (start_ids (starts s))) /\
-  (forall n, finished s n -> count_occ Nat.eq_dec (map fst (results s)) n = 1).
-Proof.
-  intros s R. pose proof (inv_reachable s R) as I. pose proof (ndone_le_nacc s I) as Hle. destruct I as [IA IB].
-  pose proof (B_resids s IB) as Hr. pose proof (B_ids s IB) as Hi.
-  repeat split.
-  - rewrite <- (map_length fst (results s)), Hr. unfold start_ids in Hi.
-    rewrite <- (map_length (fun x => fst (fst x)) (starts s)), Hi. rewrite !rev_length, !seq_length. auto.
-  - rewrite Hr. apply NoDup_rev_seq.
-  - intros n Hn. rewrite Hr in Hn. rewrite Hi. apply in_rev_seq in Hn. apply in_rev_seq. lia.
-  - intros n [F1 [F2 F3]]. apply NoDup_count_occ'. { rewrite Hr. apply NoDup_rev_seq. }
-    rewrite Hr. apply in_rev_seq. rewrite Hi in F1. apply in_rev_seq in F1.
-    unfold ndone, pending, nacc in *.
-    pose proof (A_one s IA) as H1. pose proof (A_sid s IA) as Hsid. pose proof (A_excl s IA) as Hex.
-    destruct (srch s) as [|th [|th2 rest]] eqn:Es; simpl in *; try lia.
-    + destruct (cpcv s); simpl in *; try lia; try (assert (n <> S (stopPtr s)) by (intro; apply F3; auto); lia);
-        try (assert (n <> stopPtr s) by (intro; apply F3; auto); lia).
-    + destruct (Hsid th (or_introl eq_refl)) as [E _].
-      assert (holds_run (cpcv s) = false). { destruct (holds_run (cpcv s)); auto. specialize (Hex eq_refl). discriminate. }
-      assert (n <> stopPtr s) by (intro; apply F2; left; lia).
-      destruct (cpcv s); simpl in *; try discriminate; destruct (sent (spcv th)); simpl; lia.
-Qed.
-
-Theorem result_belongs_to_start : forall s n r, reachable s -> In (n, r) (results s) ->
-  exists c l, In (n, c, l) (starts s).
-Proof.
-  intros s n r R Hin. destruct (one_result_per_start s R) as [_ [_ [H _]]].
-  assert (In n (map fst (results s))). { apply in_map_iff. exists (n, r). auto. }
-  apply H in H0. unfold start_ids in H0. apply in_map_iff in H0. destruct H0 as [[[n' c] l] [E Hx]].
-  simpl in E. subst. eauto.
-Qed.
-
-(* schedule fragment that lets search goroutine n return from iterativeDeepening as soon as it is in the search
-   loop, and run on (disabled picks are skipped by run_sched) *)
-Definition drive (n k : nat) : list tid := flat_map (fun _ => [TSearch n Finish; TSearch n Go]) (seq 0 k).
-
-Example one_result_nonvacuous :
-  let s := run_sched (init true false false [CStart (mkLimits false false false 0 false false); CWait; CStart (mkLimits false false false 0 false false); CWait])
-             (repeat TCtl 12 ++ drive 1 40 ++ repeat TCtl 20 ++ drive 2 40 ++ repeat TCtl 12) in
-  (results s, start_ids (starts s), map sid (srch s), cpcv s, calls s) = ([(2, RSelf); (1, RSelf)], [2; 1], [], CIdle, []).
-Proof. vm_compute. reflexivity. Qed.
-
-(** * no_foreign_stop *)
-
-(* uniqueness of the start entry of an id *)
-Lemma start_unique : forall s n c l c' l', Inv s -> In (n, c, l) (starts s) -> In (n, c', l') (starts s) -> c = c' /\ l = l'.
-Proof.
-  intros s n c l c' l' [IA IB] H1 H2. pose proof (B_ids s IB) as Hi. unfold start_ids in Hi.
-  assert (ND : NoDup (map (fun x => fst (fst x)) (starts s))). { rewrite Hi. apply NoDup_rev_seq. }
-  clear Hi. induction (starts s) as [|x st IH]; simpl in *; try contradiction.
-  inversion ND; subst. destruct H1 as [H1|H1], H2 as [H2|H2]; subst.
-  - inversion H2; auto.
-  - exfalso. apply H3. apply in_map_iff. exists (n, c', l'). auto.
-  - exfalso. apply H3. apply in_map_iff. exists (n, c, l). auto.
-  - auto.
-Qed.
-
-(* Why search n ended ([r] is recorded with its result):
-   RSelf  : iterativeDeepening returned by itself (only for searches that are neither infinite nor ponder);
-   RNodes : its own node limit;
-   RTimer k tok cr : timer k - then the timer holds token n (= was started for search n): by run n itself,
-            or by a PonderHit call issued after the StartSearch call of n;
-   RStop c : StopSearch / NewGame call number c, issued after the StartSearch call of n;
-   never REnd, never anything belonging to another search. *)
-Theorem no_foreign_stop : forall s n r, reachable s -> In (n, r) (results s) ->
-  exists cs l, In (n, cs, l) (starts s) /\
-  match r with
-  | RSelf => lPonder l || lInfinite l = false
-  | RNodes => lNodes l = true
-  | RTimer k tok (ByRun m) => tok = n /\ m = n /\ lTimeControl l && negb (lPonder l) = true
-  | RTimer k tok (ByPonderHit c) => tok = n /\ cs < c <= cidx s /\ nth_error (allcalls s) c = Some CPonderHit /\ lPonder l = true
-  | RStop c => cs < c <= cidx s /\ (nth_error (allcalls s) c = Some CStop \/ nth_error (allcalls s) c = Some CNewGame)
-  | REnd => False
-  end.
-Proof.
-  intros s n r R Hin. pose proof (inv_reachable s R) as I.
-  destruct (result_belongs_to_start s n r R Hin) as [cs [l Hst]]. exists cs, l. split; auto.
-  assert (U : forall c' l', In (n, c', l') (starts s) -> cs = c' /\ l = l') by (intros; eapply start_unique; eauto).
-  destruct I as [IA IB]. destruct (B_res s IB n r Hin) as [Hok _].
-  destruct r; simpl in Hok.
-  - destruct Hok as [c' [l' [H1 H2]]]. destruct (U _ _ H1); subst; auto.
-  - destruct Hok as [c' [l' [H1 H2]]]. destruct (U _ _ H1); subst; auto.
-  - destruct Hok as [E Hc]. destruct cr; simpl in Hc.
-    + destruct Hc as [E2 [c' [l' [H1 H2]]]]. destruct (U _ _ H1); subst; auto.
-    + destruct Hc as [H1 [H2 [H3 [c' [l' [H4 H5]]]]]]. destruct (U _ _ H4); subst. specialize (H3 _ _ Hst). repeat split; auto.
-  - destruct Hok as [H1 [H2 H3]]. specialize (H3 _ _ Hst). repeat split; auto.
-  - contradiction.
-Qed.
-
-(* direct corollaries in the wording of the property *)
-Corollary no_stale_timer : forall s n k tok cr, reachable s -> In (n, RTimer k tok cr) (results s) -> tok = n.
-Proof. intros. destruct (no_foreign_stop _ _ _ H H0) as [cs [l [_ X]]]. destruct cr; tauto. Qed.
-Corollary no_stale_stop : forall s n c cs l, reachable s -> In (n, RStop c) (results s) -> In (n, cs, l) (starts s) -> cs < c.
-Proof.
-  intros. destruct (no_foreign_stop _ _ _ H H0) as [cs' [l' [Hst X]]].
-  destruct (start_unique s n cs l cs' l' (inv_reachable s H) H1 Hst); subst. lia.
-Qed.
-
-(** * infinite_not_before_stop *)
-
-Theorem infinite_not_before_stop_guarded : forall s n r cs l, reachable s ->
-  In (n, r) (results s) -> In (n, cs, l) (starts s) -> lPonder l || lInfinite l = true ->
-  lNodes l = false -> lTimeControl l && negb (lPonder l) = false ->
-  (exists c, r = RStop c /\ cs < c <= cidx s /\ (nth_error (allcalls s) c = Some CStop \/ nth_error (allcalls s) c = Some CNewGame)) \/
-  (exists k c, r = RTimer k n (ByPonderHit c) /\ cs < c <= cidx s /\ nth_error (allcalls s) c = Some CPonderHit).
-Proof.
-  intros s n r cs l R Hin Hst Hw Hn Ht. destruct (no_foreign_stop _ _ _ R Hin) as [cs' [l' [Hst' X]]].
-  destruct (start_unique s n cs l cs' l' (inv_reachable s R) Hst Hst'); subst.
-  destruct r; try congruence; try contradiction.
-  - destruct cr.
-    + destruct X as [_ [_ X]]. congruence.
-    + destruct X as [E [X1 [X2 X3]]]. subst. right. eauto.
-  - left. eauto.
-Qed.
-
-(* without the guard: additionally the two ways found on the real engine *)
-Theorem infinite_not_before_stop_general : forall s n r cs l, reachable s ->
-  In (n, r) (results s) -> In (n, cs, l) (starts s) -> lPonder l || lInfinite l = true ->
-  (exists c, r = RStop c /\ cs < c) \/ (exists k c, r = RTimer k n (ByPonderHit c) /\ cs < c) \/
-  (r = RNodes /\ lNodes l = true) \/ (exists k, r = RTimer k n (ByRun n) /\ lTimeControl l && negb (lPonder l) = true).
-Proof.
-  intros s n r cs l R Hin Hst Hw. destruct (no_foreign_stop _ _ _ R Hin) as [cs' [l' [Hst' X]]].
-  destruct (start_unique s n cs l cs' l' (inv_reachable s R) Hst Hst'); subst.
-  destruct r; try congruence; try contradiction.
-  - right. right. left. auto.
-  - destruct cr.
-    + destruct X as [E1 [E2 X]]. subst. right. right. right. eauto.
-    + destruct X as [E [X1 _]]. subst. right. left. exists k, c. split; auto. lia.
-  - left. exists c. split; auto. lia.
-Qed.
-
-(* REFUTED as stated in the property: an infinite search answers without any stop request.
-   Witness 1: `go infinite movetime ..` (run starts a timer, search.go:299); witness 2: `go infinite nodes ..`
-   (stopConditions stores true into the stop token, search.go:603); witness 3: `go ponder nodes ..`.
-   The call lists contain no CStop / CNewGame / CPonderHit at all. *)
-Definition sched_inf_movetime : list tid :=
-  repeat TCtl 12 ++ repeat (TSearch 1 Go) 16 ++ repeat (TTimer 0) 6 ++ repeat (TSearch 1 Go) 30.
-Definition sched_inf_nodes : list tid :=
-  repeat TCtl 12 ++ repeat (TSearch 1 Go) 14 ++ [TSearch 1 Nodes] ++ repeat (TSearch 1 Go) 30.
-
-Theorem infinite_not_before_stop_refuted :
-  (exists l sched, lInfinite l = true /\
-     results (run_sched (init true false false [CStart l]) sched) = [(1, RTimer 0 1 (ByRun 1))]) /\
-  (exists l sched, lInfinite l = true /\
-     results (run_sched (init true false false [CStart l]) sched) = [(1, RNodes)]) /\
-  (exists l sched, lPonder l = true /\
-     results (run_sched (init true false false [CStart l]) sched) = [(1, RNodes)]).
-Proof.
-  split; [|split].
-  - exists (mkLimits true false true 0 false false), sched_inf_movetime. split; [reflexivity|]. vm_compute. reflexivity.
-  - exists (mkLimits true false false 0 true false), sched_inf_nodes. split; [reflexivity|]. vm_compute. reflexivity.
-  - exists (mkLimits false true false 0 true false), sched_inf_nodes. split; [reflexivity|]. vm_compute. reflexivity.
-Qed.
-
-Example infinite_guarded_nonvacuous :
-  let s := run_sched (init true false false [CStart (mkLimits true false false 0 false false); CStop])
-             (repeat TCtl 12 ++ repeat (TSearch 1 Go) 15 ++ repeat TCtl 12 ++ repeat (TSearch 1 Go) 30 ++ repeat TCtl 12) in
-  (results s, starts s, calls s) = ([(1, RStop 1)], [(1, 0, mkLimits true false false 0 false false)], []).
-Proof. vm_compute. reflexivity. Qed.
-
 
 (** * Assumptions *)
 Print Assumptions inv_reachable.
-Print Assumptions start_while_running_rejected.
-Print Assumptions start_rejected_step.
-Print Assumptions one_result_per_start.
-Print Assumptions result_belongs_to_start.
-Print Assumptions no_foreign_stop.
-Print Assumptions infinite_not_before_stop_guarded.
-Print Assumptions infinite_not_before_stop_general.
-Print Assumptions infinite_not_before_stop_refuted.
